@@ -78,22 +78,32 @@ def check_encoding(repo: Repo, rep: Report) -> None:
     xitems: List[Any] = []
     for acyclic in (False, True):
         deviating = []
+        specs_: Dict[int, Any] = {}
         n_ok = 0
         try:
             for gname, n, edges in GRAPHS:
+              # activity flags as the caller's variables, and with Python constants among them
+              variants: List[Tuple[Dict[int, bool], str]] = [({}, "")]
+              if n >= 2:
+                  variants += [({0: True}, ", vertex 0 given as the constant True"), ({n - 1: False}, f", vertex {n - 1} given as the constant False")]
+              for consts, note in variants:
                 inst = Instance(repo)
                 act = inst.user_bools(n, "A")
+                flags: Any = act if not consts else [consts.get(k, v) for k, v in enumerate(act.attrs["data"])]
                 g = inst.w.graph(n, edges)
-                inst.w.call("active_vertices_connected", inst.s, act, g, acyclic=acyclic)
-                refs, cons = ref_vertices_connected(n, edges, acyclic)
+                inst.w.call("active_vertices_connected", inst.s, flags, g, acyclic=acyclic)
+                refs, cons = ref_vertices_connected(n, edges, acyclic, act=(lambda i, consts=consts: ("c", consts[i]) if i in consts else ("A", i)))
                 same, diff = compare(inst, refs, cons)
+                spec_ = (lambda n=n, edges=edges, acyclic=acyclic, consts=consts: {
+                    p for p in itertools.product([False, True], repeat=n)
+                    if tuple(consts.get(k, b) for k, b in enumerate(p)) in connected_sets(n, edges, acyclic)})
                 if n <= 5:
-                    xitems.append((f"graph '{gname}' {edges}, acyclic={acyclic}", inst, [a for a in inst.arrays if a["user"]][0]["ids"],
-                                   (lambda n=n, edges=edges, acyclic=acyclic: connected_sets(n, edges, acyclic))))
+                    xitems.append((f"graph '{gname}' {edges}, acyclic={acyclic}{note}", inst, [a for a in inst.arrays if a["user"]][0]["ids"], spec_))
                 if same:
                     n_ok += 1
                 else:
-                    deviating.append((gname, n, edges, inst, diff))
+                    deviating.append((gname + note, n, edges, inst, diff))
+                    specs_[id(inst)] = spec_
         except Undecided as ex:
             rep.undecide("ENC-S", f"active_vertices_connected(acyclic={acyclic}): {ex}")
             continue
@@ -106,15 +116,16 @@ def check_encoding(repo: Repo, rep: Report) -> None:
             continue
         triage(rep, label, "_active_vertices_connected", deviating,
                lambda n, edges: connected_sets(n, edges, acyclic), lambda inst: [a for a in inst.arrays if a["user"]][0]["ids"],
-               "active set", "connected" + (" tree" if acyclic else ""))
+               "active set", "connected" + (" tree" if acyclic else ""), specs=specs_)
         xitems = [x for x in xitems if f"acyclic={acyclic}" not in x[0]]
     from .encodings import cross_check
 
     cross_check(rep, "active_vertices_connected", "_active_vertices_connected", xitems, what="active set")
 
 
-def triage(rep: Report, label: str, func: str, deviating: List[Any], spec, user_ids, what: str, meaning: str) -> None:
-    """a deviation from the reference schema: look for a witness pattern on the small instances"""
+def triage(rep: Report, label: str, func: str, deviating: List[Any], spec, user_ids, what: str, meaning: str, specs=None) -> None:
+    """a deviation from the reference schema: look for a witness pattern on the small instances
+    (`specs`: per-instance definition sets, keyed by id(instance), for instances that are not the plain (n, edges) form)"""
     undecided = None
     for gname, n, edges, inst, diff in deviating:
         if n > 4 and len(deviating) > 1:
@@ -123,7 +134,7 @@ def triage(rep: Report, label: str, func: str, deviating: List[Any], spec, user_
         if proj is None:
             undecided = f"{label} on graph '{gname}': deviates from the reference schema ({diff}); projection enumeration exceeded its budget"
             continue
-        want = spec(n, edges)
+        want = specs[id(inst)]() if specs and id(inst) in specs else spec(n, edges)
         wrong_acc = sorted(proj - want)
         wrong_rej = sorted(want - proj)
         if wrong_acc or wrong_rej:
